@@ -745,7 +745,7 @@ func c02linksAndPassThrough(c *chk.Ctx) {
 		before := run.Snap(wd)
 		var outs []string
 		for p, e := range before {
-			if e.Mode != "d" && !strings.HasSuffix(p, ".audit.json") {
+			if e.Mode != "d" && !mon.IsAuditFile(p) {
 				outs = append(outs, p)
 			}
 		}
